@@ -562,6 +562,65 @@ fn overlap_plan(variant: usize) -> Plan {
     }
 }
 
+/// One writer saves k twice in a row (three entries, then one: no squash, so both values
+/// sit in its own chain), an unrelated stale writer diverges, a third instance reconciles.
+/// The later value must win whatever order read_dir yields.
+fn seq_then_diverge_plan(variant: usize) -> Plan {
+    let v = |i: usize| VALUE_POOL[(variant + i) % 7].to_vec();
+    let k = (variant % 3) as u8;
+    let first: Ents = (0u8..3).map(|i| (i, v(i as usize))).collect();
+    let second: Ents = vec![(k, v(5))];
+    Plan {
+        lw: variant % 2 == 0,
+        nkeys: 5,
+        procs: vec![
+            vec![Cmd::Read, Cmd::Write(first), Cmd::Write(second)],
+            vec![Cmd::Read, Cmd::Stale(vec![(3 + (variant % 2) as u8, v(3))])],
+            vec![Cmd::Read, Cmd::Read],
+        ],
+        // P1 loads the empty table first, P0 does its two sequential saves, P1 saves (stale), P2 reconciles
+        sched: vec![
+            Sch::Burst(0),
+            Sch::Burst(1),
+            Sch::Burst(0),
+            Sch::Burst(0),
+            Sch::Burst(1),
+            Sch::Burst(2),
+            Sch::Burst(2),
+        ],
+        kind: "seq-then-diverge",
+    }
+}
+
+/// Known finding squash-rerecords-inherited-value: A = {k0->v1}; writer 1 saves k0->v2 on top
+/// of A; stale writer 2, also from A, saves only k1->w, but its save squashes with A and so
+/// re-records k0->v1 in its own segment; a fourth instance reconciles: k0 reads back v1 iff
+/// read_dir lists writer 1's head first.
+fn rerecord_plan(variant: usize) -> Plan {
+    let v = |i: usize| VALUE_POOL[(variant * 2 + i) % 7].to_vec();
+    Plan {
+        lw: true,
+        nkeys: 2,
+        procs: vec![
+            vec![Cmd::Read, Cmd::Stale(vec![(0, v(0))])],
+            vec![Cmd::Read, Cmd::Stale(vec![(0, v(1))])],
+            vec![Cmd::Read, Cmd::Stale(vec![(1, v(2))])],
+            vec![Cmd::Read],
+        ],
+        sched: vec![
+            Sch::Burst(0),
+            Sch::Burst(0),
+            Sch::Burst(1),
+            Sch::Burst(2),
+            Sch::Burst(1),
+            Sch::Burst(2),
+            Sch::Burst(3),
+            Sch::Burst(3),
+        ],
+        kind: "rerecord",
+    }
+}
+
 fn main() {
     sched_s::install();
     jjv::run("C21", "C21", |ctx| {
@@ -575,6 +634,10 @@ fn main() {
                     f4_plan()
                 } else if i <= 18 {
                     overlap_plan(i - 1)
+                } else if i <= 30 {
+                    seq_then_diverge_plan(i - 19)
+                } else if i <= 38 {
+                    rerecord_plan(i - 31)
                 } else {
                     random_plan(&mut rng)
                 };
